@@ -4,7 +4,7 @@ CONSTANTS
   Hi = 127
   Starts <- S8t
   Ends <- S8t
-  Steps <- S8t
+  Steps <- S8ts
   Wraps = FALSE
   PrintRows = TRUE
 INVARIANTS TypeOK NeedsNoValueOutsideT YieldsTheSequence StopsAtTheEnd DenotationConsistent RejectedOnlyWhenSpecified Emit
